@@ -21,6 +21,8 @@ CONFIGS = {
     "tf-nohp": ["--manifest-path", "gix-tempfile/Cargo.toml", "--no-default-features", "--features", "signals"],
     "pl-async": ["--manifest-path", "gix-packetline/Cargo.toml", "--no-default-features", "--features", "async-io"],
     "fs-par": ["--manifest-path", "gix-features/Cargo.toml", "--features", "fs-walkdir-parallel"],
+    # features that `cargo test --workspace` only enables through dev-dependencies
+    "gix-te": ["--manifest-path", "gix/Cargo.toml", "--features", "tree-editor"],
 }
 
 
@@ -115,7 +117,7 @@ def workspace_members():
 def expected_libs(config):
     if config == "ws":
         return sorted({l for _, _, libs in workspace_members() for l in libs})
-    return {"tf-nohp": ["gix_tempfile"], "pl-async": ["gix_packetline"], "fs-par": ["gix_features"]}[config]
+    return {"tf-nohp": ["gix_tempfile"], "pl-async": ["gix_packetline"], "fs-par": ["gix_features"], "gix-te": ["gix"]}[config]
 
 
 def facts_dir(config):
